@@ -296,7 +296,8 @@ class Case:
                     self.mm("fn_bp_not_at_prologue_end" if x["haspe"] else "fn_bp_not_on_instruction",
                             action, a["name"], expd, A, query)
                 else:
-                    self.mm("fn_bp_outside_function", action, a["name"], expd, A, query)
+                    self.mm("fn_bp_outside_function_despite_prologue_end" if x["haspe"]
+                            else "fn_bp_outside_function_no_prologue_end", action, a["name"], expd, A, query)
             for y in A:
                 g = self.func_of_addr(y)
                 if g is None:
